@@ -108,6 +108,9 @@ def _sem_case(spec):
                 weights.append('%d:[]:-:%s' % (i, _bn_fields(pit.seed.get_submodule('n%d' % i))))
         relu = [i for i, ins in enumerate(prog) if ins[0] == 'relu']
         rendered = pitgen.render(prog, shapes_rec, excl, layer_info)
+        if rendered is None:
+            res['skipped'] = 'not-in-model'
+            return res
         n_in = [i for i, ins in enumerate(prog) if ins[0] == 'input']
         for b in range(B):
             inputs = ';'.join('%d=%s' % (n, _lst(_ints(xs[prog[n][1]][b]))) for n in n_in)
@@ -131,6 +134,8 @@ def sem_specs(chk, n, styles=('mixed', 'mixed', 'min', 'open'), unsupported=Fals
             opts['cat_tail'] = True
         if i % 9 == 4:
             opts['fixed_cat'] = True
+        if i % 6 == 5:
+            opts['reuse'] = True       # a layer (with its BatchNorm) invoked twice, on two different tensors
         if unsupported and i % 8 == 3:
             opts['unsupported'] = 'add_cat'
         out.append({'seed': rng.randint(0, 1 << 30), 'dim': 1 + i % 2, 'opts': opts, 'fold_bn': rng.random() < .4,
